@@ -6,7 +6,7 @@ var mirrored = map[string][]string{
 		"Buffer.WriteHead", "Buffer.WriteInt8", "Buffer.WriteInt16", "Buffer.WriteInt32", "Buffer.WriteInt64",
 		"Buffer.WriteUint8", "Buffer.WriteUint16", "Buffer.WriteUint32", "Buffer.WriteBool", "Buffer.WriteFloat32",
 		"Buffer.WriteFloat64", "Buffer.WriteString", "Reader.readHead", "Reader.unreadHead", "Reader.Next", "Reader.Skip",
-		"Reader.skipField", "Reader.skipFieldMap", "Reader.skipFieldList", "Reader.skipFieldSimpleList",
+		"Reader.skipField", "Reader.skipFields", "Reader.skipLen", "Reader.skipSimpleList",
 		"Reader.SkipToStructEnd", "Reader.SkipToNoCheck", "Reader.SkipTo", "Reader.ReadInt8", "Reader.ReadInt16",
 		"Reader.ReadInt32", "Reader.ReadInt64", "Reader.ReadUint8", "Reader.ReadUint16", "Reader.ReadUint32",
 		"Reader.ReadBool", "Reader.ReadFloat32", "Reader.ReadFloat64", "Reader.ReadString", "Reader.ReadSliceInt8",
